@@ -220,8 +220,16 @@ def search(chk, broken):
                 j = raised_on          # what does a calculator do right after one of its calls raised?
             shot, calc = shots[i], calcs[j]
             last_j, last_i = j, i
+            if rng.random() < 0.25:
+                # the user edits the shot he keeps IN PLACE (wind speed / direction / extent, angles, sight height, twist, load data, ...)
+                sg.edit_in_place(pbc, rng, shot)
             fresh = pbc.Calculator(_config=calc._verif_cfgdict)
-            shot2 = copy.deepcopy(shot)
+            if rng.random() < 0.5:
+                shot2 = copy.deepcopy(shot)
+            else:
+                # ... an EQUAL shot built anew from the present field values (nothing a long-lived shot object may have memoised comes along)
+                shot2 = pbc.Shot(copy.deepcopy(shot.weapon), copy.deepcopy(shot.ammo), copy.deepcopy(shot.look_angle), copy.deepcopy(shot.relative_angle),
+                                 copy.deepcopy(shot.cant_angle), copy.deepcopy(shot.atmo), [copy.deepcopy(w) for w in shot._winds])
             if rng.random() < 0.6:
                 R, step, extra = rng.choice([300.0, 900.0, 2400.0, 9000.0 if HEAVY else 2400.0, 15000.0 if HEAVY else 900.0]), rng.choice([100.0, 150.0, 1500.0]), rng.random() < 0.3
                 what = f'fire(shot#{i}, {R} ft, step {step} ft, extra={extra}) on calculator#{j}'
